@@ -72,6 +72,7 @@ THEOREMS = {
 TRANSFER = {
     'add_fits_src': (['add_size'], ['C07']), 'sub_fits_src': (['sub_size'], ['C07']), 'mul_fits_src': (['mul_size'], ['C07']),
     'truediv_fits_src': (['truediv_size'], ['C09']),
+    'floordiv_fits_src': (['floordiv_size'], ['C09']), 'floordiv_fmt_src': (['floordiv_size'], ['C09']),
     'sum_fits_src': (['sum_size'], ['C15']), 'prod_fits_src': (['prod_size'], ['C15']), 'dot_fits_src': (['dot_size'], ['C15']),
     'add_path_exact_src': (['needs_pyint'], ['C19']), 'mul_path_exact_src': (['mul_needs_pyint'], ['C19']),
 }
